@@ -1,7 +1,7 @@
 #!/bin/sh
 # usage: tools/confirm_seed.sh <id-dir under /tmp/seed> <name under /verif/seeded>
 # Confirms in the scratch worktree: patch == worktree diff, suite passes with it, demo fails with / passes without. Then stores it.
-SRC=/tmp/seed/$1; DST=/verif/seeded/$2
+SRC=${SEEDBASE:-/tmp/seed}/$1; DST=/verif/seeded/$2
 cd $SRC/wt || exit 2
 git diff > /tmp/confirm.diff
 cmp -s /tmp/confirm.diff $SRC/out/patch.diff || { echo "patch.diff differs from worktree diff"; diff /tmp/confirm.diff $SRC/out/patch.diff | head -5; }
